@@ -112,7 +112,11 @@ func init() {
 		if b, ok := req["bin"].(string); ok && b != "" {
 			t.BinOutput = model.NewOutput("file", b2s(b))
 		}
-		key, err := hashing.GetTargetChangeHash(t, strList(req["deps"]))
+		deps := map[string]string{}
+		for _, kv := range hashPairs(req["deps"]) {
+			deps[*kv[0]] = *kv[1]
+		}
+		key, err := hashing.GetTargetChangeHash(t, deps)
 		if err != nil {
 			return map[string]any{"err": true}, nil
 		}
